@@ -285,6 +285,33 @@ def level_rule(rep, g, store_items):
            "%d reads, all dominated by the level check" % n if good and not bad else
            ("level check missing or not throwing XSerializationException" if not good else "reads at lines %s are not preceded by the level check" % bad),
            "%s" % cfg.file)
+    # the mismatch report itself must not fail for any level value: the numbers formatted for the message fit
+    TYPE_DIGITS = {"unsigned int": 10, "int": 10, "XMLSize_t": 20, "unsigned long": 20, "unsigned short": 5}
+    decl = {}
+    for bid, i, el in cfg.elements():
+        for d in el.get("decl", []):
+            decl[d[0]] = d[1]
+    k = 0
+    for bid, i, el in guard.sites(cfg, lambda x: x[0] == "c" and x[1] == "XMLString::binToText" and len(x[3]) >= 4):
+        x = el["x"]
+        val, cap, radix = x[3][0], x[3][2], x[3][3]
+        while val[0] == "cast":
+            val = val[2]
+        if cap[0] != "i" or radix != ["i", 10]:
+            raise AnalysisBroken("deserializeGrammars: binToText with a non-constant capacity or radix")
+        if val[0] == "i":
+            need = len(str(abs(val[1])))
+        elif val[0] == "l" and decl.get(val[1]) in TYPE_DIGITS:
+            need = TYPE_DIGITS[decl[val[1]]]
+        else:
+            raise AnalysisBroken("deserializeGrammars: cannot bound the number formatted at line %s" % el.get("l"))
+        k += 1
+        rep.ob("C16.d", "deserializeGrammars/report@%s" % (core.sx_str(val)), cap[1] >= need,
+               "up to %d digits fit the %d allowed" % (need, cap[1]) if cap[1] >= need else
+               "deserializeGrammars (line %s) formats %s, which can need %d digits, with room for %d: for such a level binToText throws "
+               "IllegalArgumentException and the mismatch is not reported as XSerializationException" % (el.get("l"), core.sx_str(val), need, cap[1]),
+               "%s:%s" % (cfg.file, el.get("l", 0)))
+    rep.floor("C16.d/report", k, 2)
 
 
 def loaddv_rule(rep, f, sts):
